@@ -18,6 +18,14 @@ ghostfield pp.gnw int stable
 ghostfield pp.gw0 bool stable
 ghostfield pp.ggood bool stable
 ghostfield pp.gerr u stable
+-- the funnel all routes share (C16): how many times doPrint/doPrintf/doPrintln ran on this printer since
+-- newPrinter, which of them last (1/2/3), and the identity of the operand list and format handed to it
+ghostfield pp.gdp int stable
+ghostfield pp.gdk int stable
+ghostfield pp.gdar int stable
+ghostfield pp.gdao int stable
+ghostfield pp.gdal int stable
+ghostfield pp.gdf str stable
 -- snapshots of mode and override at a program point (used by loop invariants)
 ghostvar gl int
 ghostvar ga seq
@@ -33,9 +41,11 @@ pred B(p *pp) = PI(p) && (p.buf.gctx == 0 ==> p.buf.mode == SafeEscaped)
 pred Same(p *pp) = p.buf.mode == old(p.buf.mode) && p.override == old(p.override) && p.buf.gctx == old(p.buf.gctx)
 -- the per-call state that user callbacks and nested printing leave alone
 pred Kept(p *pp) = p.panicking == old(p.panicking) && p.erroring == old(p.erroring) && p.wrapErrs == old(p.wrapErrs) && p.wrappedErr == old(p.wrappedErr) && p.arg == old(p.arg) && p.value == old(p.value) && p.fmt.wid == old(p.fmt.wid) && p.fmt.prec == old(p.fmt.prec) && p.fmt.widPresent == old(p.fmt.widPresent) && p.fmt.precPresent == old(p.fmt.precPresent) && p.fmt.minus == old(p.fmt.minus) && p.fmt.plus == old(p.fmt.plus) && p.fmt.sharp == old(p.fmt.sharp) && p.fmt.space == old(p.fmt.space) && p.fmt.zero == old(p.fmt.zero) && p.fmt.plusV == old(p.fmt.plusV) && p.fmt.sharpV == old(p.fmt.sharpV) && p.reordered == old(p.reordered) && p.goodArgNum == old(p.goodArgNum)
+-- C16: the operand list a (and format f) reached the funnel of kind k exactly once on printer p
+pred Funnel(p *pp, k int, a []interface{}) = p.gdp == 1 && p.gdk == k && p.gdar == ref(a) && p.gdao == off(a) && p.gdal == len(a)
 -- what sync.Pool may hold
 pred PoolInv(p *pp) = len(p.buf.buf) == 0 && p.buf.validUntil == 0 && p.buf.mode == UnsafeEscaped && !p.buf.markerOpen && p.override == 0 && p.buf.gctx == 0 && isnil(p.arg) && isnil(p.wrappedErr)
-pred Pristine(p *pp) = PoolInv(p) && p.gnw == 0 && !p.gw0 && !p.panicking && !p.erroring && !p.wrapErrs && p.fmt.buf == p.buf && !p.fmt.widPresent && !p.fmt.precPresent && !p.fmt.minus && !p.fmt.plus && !p.fmt.sharp && !p.fmt.space && !p.fmt.zero && !p.fmt.plusV && !p.fmt.sharpV
+pred Pristine(p *pp) = PoolInv(p) && p.gdp == 0 && p.gnw == 0 && !p.gw0 && !p.panicking && !p.erroring && !p.wrapErrs && p.fmt.buf == p.buf && !p.fmt.widPresent && !p.fmt.precPresent && !p.fmt.minus && !p.fmt.plus && !p.fmt.sharp && !p.fmt.space && !p.fmt.zero && !p.fmt.plusV && !p.fmt.sharpV
 
 -- a write site: payload class c (0 literal, 1 type name/diagnostic, 2 operand, 3 padding: follows the payload it pads) against mode and context
 -- width and precision stay within what the format parser produces
@@ -406,6 +416,7 @@ func newPrinter() (r *pp)
   assume-fresh p after "p := ppFree.Get().(*pp)"
   ghost p.gw0 = false after "p.wrapErrs = false"
   ghost p.gnw = 0 after "p.wrapErrs = false"
+  ghost p.gdp = 0 after "p.wrapErrs = false"
   assume-fresh p.buf.buf after "p := ppFree.Get().(*pp)"
   assume [C12] inv(p.buf) && PoolInv(p) && WP(p.fmt) after "p := ppFree.Get().(*pp)"
   ensures r != nil && fresh(r)
@@ -670,6 +681,13 @@ pred Lp(p *pp) = !$panic && !p.erroring && inv(p.buf) && B(p) && p.override == o
 
 func (p *pp) doPrintf(format string, a []interface{})
   public format
+  ghost p.gdp = p.gdp + 1 at entry
+  ghost p.gdk = 2 at entry
+  ghost p.gdar = ref(a) at entry
+  ghost p.gdao = off(a) at entry
+  ghost p.gdal = len(a) at entry
+  ghost p.gdf = format at entry
+  ensures-always [C16] p.gdp == old(p.gdp) + 1 && p.gdk == 2 && p.gdar == ref(a) && p.gdao == off(a) && p.gdal == len(a) && sameView(p.gdf, format) && len(p.gdf) == len(format)
   requires [C15] p.gnw == 0 && p.gw0 == p.wrapErrs && isnil(p.wrappedErr)
   ghost p.gnw = c == 119 ? p.gnw + 1 : p.gnw before "p.printArg(a[argNum], rune(c))"
   ghost p.ggood = (c == 119 && p.gnw == 1) ? (p.wrapErrs && !isnil(p.wrappedErr)) : p.ggood after "p.printArg(a[argNum], rune(c))"
@@ -698,6 +716,12 @@ func (p *pp) doPrintf(format string, a []interface{})
 
 func (p *pp) doPrint(a []interface{})
   requires PI(p) && !p.panicking && !p.erroring && WP(p.fmt)
+  ghost p.gdp = p.gdp + 1 at entry
+  ghost p.gdk = 1 at entry
+  ghost p.gdar = ref(a) at entry
+  ghost p.gdao = off(a) at entry
+  ghost p.gdal = len(a) at entry
+  ensures-always [C16] p.gdp == old(p.gdp) + 1 && p.gdk == 1 && p.gdar == ref(a) && p.gdao == off(a) && p.gdal == len(a)
   may-panic
   loop 1 invariant Lp(p)
   ensures-always [C05,C06] PI(p) && p.override == old(p.override) && p.buf.gctx == old(p.buf.gctx) && (p.buf.gctx != 2 ==> p.buf.mode == SafeEscaped)
@@ -706,6 +730,12 @@ func (p *pp) doPrint(a []interface{})
 
 func (p *pp) doPrintln(a []interface{})
   requires PI(p) && !p.panicking && !p.erroring && WP(p.fmt)
+  ghost p.gdp = p.gdp + 1 at entry
+  ghost p.gdk = 3 at entry
+  ghost p.gdar = ref(a) at entry
+  ghost p.gdao = off(a) at entry
+  ghost p.gdal = len(a) at entry
+  ensures-always [C16] p.gdp == old(p.gdp) + 1 && p.gdk == 3 && p.gdar == ref(a) && p.gdao == off(a) && p.gdal == len(a)
   may-panic
   loop 1 invariant Lp(p)
   ensures-always [C05,C06] PI(p) && p.override == old(p.override) && p.buf.gctx == old(p.buf.gctx) && (p.buf.gctx != 2 ==> p.buf.mode == SafeEscaped)
@@ -722,6 +752,16 @@ ghostvar gnwOut int
 ghostvar ggoodOut bool
 ghostvar gerrOut u
 
+-- C16: what the route's printer recorded at the funnel, copied out before the printer is recycled
+ghostvar fdp int
+ghostvar fdk int
+ghostvar fdar int
+ghostvar fdao int
+ghostvar fdal int
+ghostvar fdf seq
+ghostvar fdfl int
+pred Routed(k int, a []interface{}) = fdp == 1 && fdk == k && fdar == ref(a) && fdao == off(a) && fdal == len(a)
+
 ghostvar wcount int
 ghostvar wlast seq
 ghostvar wlen int
@@ -736,44 +776,84 @@ func Fprintf(w io.Writer, format string, a ...interface{}) (n int, err error)
   public format
   inline
   may-panic
-  modifies alloc, memU, wcount, wlast, wlen, wn, werr
+  modifies alloc, memU, wcount, wlast, wlen, wn, werr, fdp, fdk, fdar, fdao, fdal, fdf, fdfl
   ensures [C16] wcount == old(wcount) + 1 && n == wn && err == werr
   ensures [C01] WF(wlast, wlen, false)
   ensures [C03] LS(wlast, wlen)
+  ghost fdp = p.gdp after "p.doPrintf(format, a)"
+  ghost fdk = p.gdk after "p.doPrintf(format, a)"
+  ghost fdar = p.gdar after "p.doPrintf(format, a)"
+  ghost fdao = p.gdao after "p.doPrintf(format, a)"
+  ghost fdal = p.gdal after "p.doPrintf(format, a)"
+  ghost fdf = p.gdf after "p.doPrintf(format, a)"
+  ghost fdfl = len(p.gdf) after "p.doPrintf(format, a)"
+  ensures [C16] Routed(2, a) && sameView(fdf, format) && fdfl == len(format)
 
 func Sprintf(format string, a ...interface{}) (s m.RedactableString)
   public format
   may-panic
-  modifies alloc, memU
+  modifies alloc, memU, fdp, fdk, fdar, fdao, fdal, fdf, fdfl
   ensures [C01] WF(s, len(s), false) && clean(s, len(s))
   ensures [C03] LS(s, len(s))
+  ghost fdp = p.gdp after "p.doPrintf(format, a)"
+  ghost fdk = p.gdk after "p.doPrintf(format, a)"
+  ghost fdar = p.gdar after "p.doPrintf(format, a)"
+  ghost fdao = p.gdao after "p.doPrintf(format, a)"
+  ghost fdal = p.gdal after "p.doPrintf(format, a)"
+  ghost fdf = p.gdf after "p.doPrintf(format, a)"
+  ghost fdfl = len(p.gdf) after "p.doPrintf(format, a)"
+  ensures [C16] Routed(2, a) && sameView(fdf, format) && fdfl == len(format)
 
 func Fprint(w io.Writer, a ...interface{}) (n int, err error)
   inline
   may-panic
-  modifies alloc, memU, wcount, wlast, wlen, wn, werr
+  modifies alloc, memU, wcount, wlast, wlen, wn, werr, fdp, fdk, fdar, fdao, fdal, fdf, fdfl
   ensures [C16] wcount == old(wcount) + 1 && n == wn && err == werr
   ensures [C01] WF(wlast, wlen, false)
   ensures [C03] LS(wlast, wlen)
+  ghost fdp = p.gdp after "p.doPrint(a)"
+  ghost fdk = p.gdk after "p.doPrint(a)"
+  ghost fdar = p.gdar after "p.doPrint(a)"
+  ghost fdao = p.gdao after "p.doPrint(a)"
+  ghost fdal = p.gdal after "p.doPrint(a)"
+  ensures [C16] Routed(1, a)
 
 func Sprint(a ...interface{}) (s m.RedactableString)
   may-panic
-  modifies alloc, memU
+  modifies alloc, memU, fdp, fdk, fdar, fdao, fdal, fdf, fdfl
   ensures [C01] WF(s, len(s), false) && clean(s, len(s))
   ensures [C03] LS(s, len(s))
+  ghost fdp = p.gdp after "p.doPrint(a)"
+  ghost fdk = p.gdk after "p.doPrint(a)"
+  ghost fdar = p.gdar after "p.doPrint(a)"
+  ghost fdao = p.gdao after "p.doPrint(a)"
+  ghost fdal = p.gdal after "p.doPrint(a)"
+  ensures [C16] Routed(1, a)
 
 func Fprintln(w io.Writer, a ...interface{}) (n int, err error)
   may-panic
-  modifies alloc, memU, wcount, wlast, wlen, wn, werr
+  modifies alloc, memU, wcount, wlast, wlen, wn, werr, fdp, fdk, fdar, fdao, fdal, fdf, fdfl
   ensures [C16] wcount == old(wcount) + 1 && n == wn && err == werr
   ensures [C01] WF(wlast, wlen, false)
   ensures [C03] LS(wlast, wlen)
+  ghost fdp = p.gdp after "p.doPrintln(a)"
+  ghost fdk = p.gdk after "p.doPrintln(a)"
+  ghost fdar = p.gdar after "p.doPrintln(a)"
+  ghost fdao = p.gdao after "p.doPrintln(a)"
+  ghost fdal = p.gdal after "p.doPrintln(a)"
+  ensures [C16] Routed(3, a)
 
 func Sprintln(a ...interface{}) (s m.RedactableString)
   may-panic
-  modifies alloc, memU
+  modifies alloc, memU, fdp, fdk, fdar, fdao, fdal, fdf, fdfl
   ensures [C01] WF(s, len(s), false) && clean(s, len(s))
   ensures [C03] LS(s, len(s))
+  ghost fdp = p.gdp after "p.doPrintln(a)"
+  ghost fdk = p.gdk after "p.doPrintln(a)"
+  ghost fdar = p.gdar after "p.doPrintln(a)"
+  ghost fdao = p.gdao after "p.doPrintln(a)"
+  ghost fdal = p.gdal after "p.doPrintln(a)"
+  ensures [C16] Routed(3, a)
 
 func Sprintfn(printer func(w i.SafePrinter)) (s m.RedactableString)
   may-panic
@@ -790,9 +870,17 @@ func HelperForErrorf(format string, args ...interface{}) (s m.RedactableString, 
   ensures [C15] gnwOut == 1 && ggoodOut ==> err == gerrOut && !isnil(err)
   ensures [C15] !(gnwOut == 1 && ggoodOut) ==> isnil(err)
   may-panic
-  modifies alloc, memU
+  modifies alloc, memU, fdp, fdk, fdar, fdao, fdal, fdf, fdfl
   ensures [C01] WF(s, len(s), false) && clean(s, len(s))
   ensures [C03] LS(s, len(s))
+  ghost fdp = p.gdp after "p.doPrintf(format, args)"
+  ghost fdk = p.gdk after "p.doPrintf(format, args)"
+  ghost fdar = p.gdar after "p.doPrintf(format, args)"
+  ghost fdao = p.gdao after "p.doPrintf(format, args)"
+  ghost fdal = p.gdal after "p.doPrintf(format, args)"
+  ghost fdf = p.gdf after "p.doPrintf(format, args)"
+  ghost fdfl = len(p.gdf) after "p.doPrintf(format, args)"
+  ensures [C16] Routed(2, args) && sameView(fdf, format) && fdfl == len(format)
 
 func EscapeBytes(s []byte) (r m.RedactableBytes)
   modifies alloc
@@ -872,16 +960,30 @@ func (p *pp) Print(args ...interface{})
   assume [C11] inv(p.buf) at unwind
   requires PI(p) && WP(p.fmt)
   may-panic
-  modifies p, alloc, memU
+  modifies p, alloc, memU, fdp, fdk, fdar, fdao, fdal, fdf, fdfl
   ensures-always PI(p) && Same(p)
   ensures Kept(p)
+  ghost fdp = np.gdp after "np.doPrint(args)"
+  ghost fdk = np.gdk after "np.doPrint(args)"
+  ghost fdar = np.gdar after "np.doPrint(args)"
+  ghost fdao = np.gdao after "np.doPrint(args)"
+  ghost fdal = np.gdal after "np.doPrint(args)"
+  ensures [C16] Routed(1, args)
 
 func (p *pp) Printf(format string, arg ...interface{})
   public format
   assume [C11] inv(p.buf) at unwind
   requires PI(p) && WP(p.fmt)
   may-panic
-  modifies p, alloc, memU
+  modifies p, alloc, memU, fdp, fdk, fdar, fdao, fdal, fdf, fdfl
   ensures-always PI(p) && Same(p)
   ensures Kept(p)
+  ghost fdp = np.gdp after "np.doPrintf(format, arg)"
+  ghost fdk = np.gdk after "np.doPrintf(format, arg)"
+  ghost fdar = np.gdar after "np.doPrintf(format, arg)"
+  ghost fdao = np.gdao after "np.doPrintf(format, arg)"
+  ghost fdal = np.gdal after "np.doPrintf(format, arg)"
+  ghost fdf = np.gdf after "np.doPrintf(format, arg)"
+  ghost fdfl = len(np.gdf) after "np.doPrintf(format, arg)"
+  ensures [C16] Routed(2, arg) && sameView(fdf, format) && fdfl == len(format)
 @*/
